@@ -211,6 +211,34 @@ def pull(self, st, ref, node, _depth=0):
                     else:
                         res.extend(pull(self, s3, ref, node, _depth + 1))
         return res
+    if op in ("takewhile", "dropwhile"):
+        state = o.fields.get("@state")
+        if op == "takewhile" and state == "closed":
+            return [(st, "stop", None)]
+        res = []
+        for (s, k, v) in pull(self, st, srcs[0], node, _depth):
+            if k != "val" or (op == "dropwhile" and state == "passing"):
+                res.append((s, k, v))
+                continue
+            for (s2, k2, t) in _apply(self, s, fn, [v], node):
+                if k2 != "val":
+                    res.append((s2, k2, t))
+                    continue
+                for (s3, b) in self.truth(s2, t, node):
+                    if op == "takewhile":
+                        if b:
+                            res.append((s3, "val", v))
+                        else:
+                            s3.wobj(ref).fields["@state"] = "closed"
+                            res.append((s3, "stop", None))
+                    elif b:
+                        if _depth > 10000:
+                            raise _U()("dropwhile over a source that does not end at %s" % self.loc(node))
+                        res.extend(pull(self, s3, ref, node, _depth + 1))
+                    else:
+                        s3.wobj(ref).fields["@state"] = "passing"
+                        res.append((s3, "val", v))
+        return res
     if op == "chain":
         idx = o.fields.get("@idx", 0)
         if idx >= len(srcs):
@@ -255,7 +283,7 @@ def abstract_seq_of(self, st, ref, node):
         if o.items is None and not o.fields.get("@done") and not o.fields.get("@started"):
             return o.fields["@seq"]
         return None
-    if op not in ("map", "filter") or len(o.fields["@src"]) != 1:
+    if op not in ("map", "filter", "takewhile") or len(o.fields["@src"]) != 1:
         return None
     inner = abstract_seq_of(self, st, o.fields["@src"][0], node)
     if inner is None:
@@ -279,7 +307,9 @@ def abstract_seq_of(self, st, ref, node):
                         if b:
                             out.append((s4, elem, label))
         return out
-    return AbsSeq("%s(%s)" % (op, inner.name), factory, False if op == "filter" else inner.nonempty)
+    # takewhile over "zero or more elements": the loop may end at every head anyway, so an element that fails the predicate
+    # is simply not produced (what follows it is never seen) - the same abstract sequence as filter
+    return AbsSeq("%s(%s)" % (op, inner.name), factory, inner.nonempty if op == "map" else False)
 
 
 # ----------------------------------------------------------------------
@@ -417,6 +447,10 @@ def call_ext(self, st, name, args, kwargs, node):
         dflt = kwargs.get("defaults")
         if names and (dflt is None or isinstance(dflt, tuple)):
             return [(st, "val", PyFn("namedtuple", (args[0], names, tuple(dflt or ()))))]
+    if name == "collections.defaultdict" and len(args) <= 1 and not kwargs:
+        return [(st, "val", st.alloc(HObj("dict", {"@default_factory": args[0] if args else None}, kind="dict", items=[])))]
+    if name == "collections.OrderedDict" and not args and not kwargs:
+        return [(st, "val", st.alloc(HObj("dict", kind="dict", items=[])))]
     if name == "functools.partial" and args:
         return [(st, "val", PyFn("partial", (args[0], tuple(args[1:]), tuple(sorted(kwargs.items())))))]
     if name in ("itertools.islice",) and 2 <= len(args) <= 3 and not kwargs and all(isinstance(a, int) or a is None for a in args[1:]):
@@ -435,6 +469,8 @@ def call_ext(self, st, name, args, kwargs, node):
         rep = kwargs.get("repeat", 1)
         if parts is not None and isinstance(rep, int):
             return [(st, "val", st.alloc(HObj("iterator", {"@pos": 0}, kind="iterator", items=list(_it.product(*parts, repeat=rep)))))]
+    if name in ("itertools.takewhile", "itertools.dropwhile") and len(args) == 2 and not kwargs and not isinstance(args[1], Top):
+        return [(st, "val", lazy(self, st, name.split(".")[-1], args[0], [args[1]], node, state="open"))]
     if name in ("itertools.chain.from_iterable",) and len(args) == 1 and not kwargs and not isinstance(args[0], Top):
         kind, seq = self.iter_values(st, args[0], node)
         if kind == "concrete" and not any(isinstance(x, Top) for x in seq):
